@@ -93,6 +93,9 @@ impl Prop for C04 {
             "trusted base: the independent renderer in gen/lefgen.rs (keyword spellings typed from the LEF 5.8 reference)".into(),
         ]
     }
+    fn miri_gen(&self) -> Option<&'static str> {
+        Some("rendered")
+    }
     fn plan(&self, tier: Tier) -> Vec<GenSpec> {
         vec![
             GenSpec::random("rendered", tier.pick(25_000, 300_000)),
